@@ -71,6 +71,10 @@ CHECKS = {
   "Complete enumeration of tree shapes with <= 4 (quick) / 5 (thorough) nodes over {leaf, array, inline table, table, array of tables}, keys from 10 adversarial keys and leaves from ~240 adversarial leaves (every pair of byte-class representatives, control characters, quote runs, i64 edges, float specials, four date-time kinds) with <= 1-2 positions deviating; each tree is built through five construction routes and as toml::Table; printed text must be valid (specification model), accepted by the parser, decode to the built tree, be a fixed point and print identically twice and across routes.",
   "Key order is compared separately among value entries and among table entries (TOML syntax forces values first); NaNs by sign only. One known finding (empty array of tables prints nothing) recognised exactly.",
   "exhaustive enumeration of small value trees x construction routes; validity, decode-equality and fixed-point oracles"),
+ "C08": ("model_checking", "state", "5/C08",
+  "Explicit-state search over edit histories: from 8 start documents (values, tables, interleaved arrays of tables, dotted and implicit tables, multi-line arrays with comments, sub-table before super-table, quoted keys, nested inline containers) and wide 24-44 header documents, every history of <= 3 (quick) / 4 (thorough) public edit calls on every path of the current document; after every step the printed text must be valid (specification model), a fixed point of the real parser, decode to the reference tree after the same edit (order among values and among array-of-tables elements), and every marked entry the edit did not touch must keep its line and the comment above it byte-for-byte. States are deduplicated by printed text + Debug of the document.",
+  "'Touched' is defined per call by the reference model; table-like siblings are compared as a set because printing follows recorded header positions; empty implicit tables / arrays of tables are invisible but kept; comments after a comma belong to the following array element, so marker comments sit before the comma.",
+  "explicit-state BFS over real edit call histories; step-wise conformance with a reference tree plus verbatim-fragment oracle"),
 }
 
 NOT_YET = {}
